@@ -797,7 +797,11 @@ func (r *Reader) ReadMessage(ctx context.Context) (Message, error) {
 
 	if r.useConsumerGroup() {
 		if err := r.CommitMessages(ctx, m); err != nil {
-			return Message{}, fmt.Errorf("committing message: %w", err)
+			// The message has been taken from the queue, the reader has
+			// moved past it: hand it out with the error, dropping it would
+			// let the next successful commit cover a message the program
+			// never received.
+			return m, fmt.Errorf("committing message: %w", err)
 		}
 	}
 
